@@ -169,6 +169,8 @@ static std::string handle(const std::string& line)
             Header::Server a(toks), b;
             b.parse(write(a));
             std::string r = "SV " + pv::hex(write(a)) + " " + pv::hex(write(b)) + " " + std::to_string(b.tokens().size());
+            for (const auto& tk : b.tokens())
+                r += " " + pv::hex(tk);
             return r;
         }
         if (t[0] == "L" && t.size() >= 2)
